@@ -9,9 +9,11 @@ Ties (all against the working tree of /repo):
  (a) Python level, inside forked tasks: for generated type compositions (real cohdl classes written to a module
      file) `std.count_bits(T)`, and for every bit pattern b (exhaustive up to a width bound, sampled above)
      `std.from_bits[T](b)` walked field by field, `std.to_bits` of that object, and `std.to_bits` of the same
-     value built with the ordinary constructors (no from_bits involved) - each compared bit by bit with the model.
+     value built with the ordinary constructors (no from_bits involved) through EVERY construction path of records
+     (PY_MODES: keywords in / out of declaration order, positional, mixed, copy) - each compared bit by bit with the model.
  (b) through the compiler: an entity `inp -> from_bits[T] -> leaves on ports, -> to_bits -> rt` and
-     `leaf ports -> constructors -> to_bits -> ser` is compiled, the emitted VHDL simulated on all / sampled
+     `leaf ports -> constructors (every construction path, plus field-wise assignment to a default-constructed
+     Variable, T(Null), T(Full)) -> to_bits -> ser / ser_<path>` is compiled, the emitted VHDL simulated on all / sampled
      patterns: the emitted logic must implement the same layout.
  (c) BitField: generated declarations (bits, ranges typed BitVector/Unsigned/Signed, nested sub-bitfields at
      offsets): every field read and every field write (on a Variable inside a compiled design and on constants)
@@ -334,7 +336,54 @@ def walk(ty, x, mod):
     raise ValueError(ty)
 
 
-def build(ty, v, mod):
+# ---- construction paths of a record value: every way a user can build the same value must serialise identically.
+#   kw     keyword arguments in declaration order, _qualifier_=std.Ref (what Record._from_bits_ itself does)
+#   pos    all positional
+#   rev    keyword arguments in reversed declaration order
+#   rot    keyword arguments rotated by one (a non-involutive permutation: differs from rev for >= 3 fields)
+#   mixed  first field(s) positional, the rest by keyword in reversed order
+#   copy   copy construction `T(x)` from a value x built with shuffled keywords
+#   assign (compiled only) default-constructed Variable, single fields assigned afterwards in shuffled order
+#   null / full (compiled only) `T(Null)` / `T(Full)`
+# applied to EVERY record node of the value (nested records are built the same way)
+PY_MODES = ["kw", "pos", "rev", "rot", "mixed", "copy"]
+EXTRA_MODES = PY_MODES[1:]
+
+
+def has_rec(ty):
+    return any(k.startswith("rec-") for k in kinds_of(ty))
+
+
+def has_kind(ty, kind):
+    return kind in kinds_of(ty)
+
+
+def rec_plan(n, mode):
+    """-> (indices passed positionally, indices passed by keyword in that order, copy?)"""
+    idx = list(range(n))
+    if mode == "kw":
+        return [], idx, False
+    if mode == "pos":
+        return idx, [], False
+    if mode == "rev":
+        return [], idx[::-1], False
+    if mode == "rot":
+        return [], idx[1:] + idx[:1], False
+    if mode == "mixed":
+        k = max(1, n // 2) if n > 1 else 0
+        return idx[:k], idx[k:][::-1], False
+    if mode == "copy":
+        return [], idx[1:][::-1] + idx[:1], True
+    raise ValueError(mode)
+
+
+def rec_qualifier(ty, mode):
+    """`kw` keeps std.Ref; the other paths use the default qualifier (std.Value) unless the record holds an std.Array
+    (copying an std.Array of non-trivially serialisable elements by value is rejected by cohdl)"""
+    return "std.Ref" if mode == "kw" or has_kind(ty, "sarr") else None
+
+
+def build(ty, v, mod, mode="kw"):
     """canonical value (parsed s-expression) -> cohdl object, using the ordinary constructors only"""
     from cohdl import std, Bit, BitVector, Unsigned, Signed
 
@@ -351,13 +400,19 @@ def build(ty, v, mod):
     if k == "sgn":
         return Signed[ty[1]](int(v[2]))
     if k == "arr":
-        return pytype(ty, mod)([build(ty[1], e, mod) for e in v[1:]])
+        return pytype(ty, mod)([build(ty[1], e, mod, mode) for e in v[1:]])
     if k == "sarr":
-        return pytype(ty, mod)([build(ty[1], e, mod) for e in v[1:]], _qualifier_=std.Value)
+        return pytype(ty, mod)([build(ty[1], e, mod, mode) for e in v[1:]], _qualifier_=std.Value)
     if k == "rec":
-        return pytype(ty, mod)(**{f"f{i}": build(f, e, mod) for i, (f, e) in enumerate(zip(ty[2], v[1:]))}, _qualifier_=std.Ref)
+        T = pytype(ty, mod)
+        parts = [build(f, e, mod, mode) for f, e in zip(ty[2], v[1:])]
+        pos, kw, copy = rec_plan(len(parts), mode)
+        q = rec_qualifier(ty, mode)
+        extra = {"_qualifier_": std.Ref} if q else {}
+        x = T(*[parts[i] for i in pos], **{f"f{i}": parts[i] for i in kw}, **extra)
+        return T(x, **extra) if copy else x
     if k == "enum":
-        return pytype(ty, mod)._unsafe_init_(build(ty[2], v[1], mod))
+        return pytype(ty, mod)._unsafe_init_(build(ty[2], v[1], mod, mode))
     if k == "sfix":
         return pytype(ty, mod)(raw=Signed[ty[1]](int(v[2])))
     if k == "ufix":
@@ -452,8 +507,9 @@ def leaf_port_type(leaf):
     raise ValueError(leaf)
 
 
-def cons_expr(ty, counter):
-    """constructor expression of a value of type ty whose leaves are the input ports self.k<n> (layout order)"""
+def cons_expr(ty, counter, mode="kw"):
+    """constructor expression of a value of type ty whose leaves are the input ports self.k<n> (layout order),
+    every record node built through the construction path `mode`"""
     k = ty[0]
     if k in LEAF:
         n = counter[0]
@@ -465,19 +521,55 @@ def cons_expr(ty, counter):
             return f"{pyexpr(ty)}(raw={p})"
         return p
     if k == "arr":
-        return f"std.Value[{pyexpr(ty)}]([" + ", ".join(cons_expr(ty[1], counter) for _ in range(ty[2])) + "])"
+        return f"std.Value[{pyexpr(ty)}]([" + ", ".join(cons_expr(ty[1], counter, mode) for _ in range(ty[2])) + "])"
     if k == "sarr":
-        return f"{pyexpr(ty)}([" + ", ".join(cons_expr(ty[1], counter) for _ in range(ty[2])) + "], _qualifier_=std.Value)"
+        return f"{pyexpr(ty)}([" + ", ".join(cons_expr(ty[1], counter, mode) for _ in range(ty[2])) + "], _qualifier_=std.Value)"
     if k == "rec":
-        return f"{ty[1]}(" + ", ".join(f"f{i}={cons_expr(f, counter)}" for i, f in enumerate(ty[2])) + ", _qualifier_=std.Ref)"
+        parts = [cons_expr(f, counter, mode) for f in ty[2]]       # leaves are numbered in declaration order
+        pos, kw, copy = rec_plan(len(parts), mode)
+        q = rec_qualifier(ty, mode)
+        args = [parts[i] for i in pos] + [f"f{i}={parts[i]}" for i in kw] + ([f"_qualifier_={q}"] if q else [])
+        e = f"{ty[1]}(" + ", ".join(args) + ")"
+        return f"{ty[1]}({e}" + (f", _qualifier_={q}" if q else "") + ")" if copy else e
     if k == "enum":
-        return f"{ty[1]}._unsafe_init_({cons_expr(ty[2], counter)})"
+        return f"{ty[1]}._unsafe_init_({cons_expr(ty[2], counter, mode)})"
     raise ValueError(ty)
 
 
-def entity_source(ty):
+def assignable(ty):
+    """`assign` / `null` / `full` paths: a record whose leaves are all reached through record fields only"""
+    return ty[0] == "rec" and all(all(p[0] == "f" for p in path) for path, leaf in leaves(ty))
+
+
+def sim_modes(ty):
+    """construction paths exercised in the compiled wrapper of ty (besides the basic `ser` = kw)"""
+    inner = ty[1] if ty[0] == "ser" else ty
+    if not has_rec(inner):
+        return []
+    can_assign = ty[0] != "ser" and assignable(inner)
+    if SIM_ALL_MODES or ty_short(ty) in _fixed_shorts() or len(leaves(inner)) <= 3:
+        return EXTRA_MODES + (["assign", "null", "full"] if can_assign else [])
+    # larger random compositions: two paths chosen by a stable hash of the shape (compile time is the budget), always `assign`
+    h = int(__import__("hashlib").sha256(ty_short(ty).encode()).hexdigest(), 16)
+    a = EXTRA_MODES[h % len(EXTRA_MODES)]
+    b = [m for m in EXTRA_MODES if m != a][(h // 7) % (len(EXTRA_MODES) - 1)]
+    return [a, b] + (["assign"] if can_assign else [])
+
+
+SIM_ALL_MODES = False      # thorough tier / replay / shrinking: every path in every compiled design
+_FIXED_SHORTS = []
+
+
+def _fixed_shorts():
+    if not _FIXED_SHORTS:
+        _FIXED_SHORTS.append({ty_short(t) for t in fixed_types()})
+    return _FIXED_SHORTS[0]
+
+
+def entity_source(ty, modes=None):
     """round-trip wrapper: inp -> from_bits[T] -> leaves l<n> and to_bits -> rt; leaf inputs k<n> -> constructors -> to_bits -> ser.
-    For Serialized[T]: from_raw(inp).value() / Serialized[T](constructed).bits()."""
+    For Serialized[T]: from_raw(inp).value() / Serialized[T](constructed).bits().
+    ser_<mode>: to_bits of the same value built through the other construction paths (sim_modes)."""
     inner = ty[1] if ty[0] == "ser" else ty
     W = width(ty)
     lv = leaves(inner)
@@ -499,9 +591,32 @@ def entity_source(ty):
         body.append("            self.ser <<= std.Serialized[TOP](w).bits()")
     else:
         body.append("            self.ser <<= std.to_bits(w)")
+    procs = []
+    for m in (sim_modes(ty) if modes is None else modes):
+        ports.append(f"    ser_{m} = Port.output(BitVector[{W}])")
+        if m in EXTRA_MODES:
+            body.append(f"            w_{m} = {cons_expr(inner, [0], m)}")
+            if ty[0] == "ser":
+                body.append(f"            self.ser_{m} <<= std.Serialized[TOP](w_{m}).bits()")
+            else:
+                body.append(f"            self.ser_{m} <<= std.to_bits(w_{m})")
+        elif m in ("null", "full"):
+            body.append(f"            self.ser_{m} <<= std.to_bits(TOP({m.capitalize()}))")
+        else:  # assign: default-constructed variable, fields assigned one by one in shuffled (reversed) order
+            lines = ["        @std.sequential", "        def p_assign():", "            va = std.Variable[TOP]()"]
+            for n, (path, leaf) in reversed(list(enumerate(lv))):
+                src = f"self.k{n}"
+                if leaf[0] == "bool":
+                    src = f"bool({src})"
+                elif leaf[0] in ("sfix", "ufix"):
+                    src = f"{pyexpr(leaf)}(raw={src})"
+                lines.append(f"            va{''.join(f'.f{p[1]}' for p in path)} @= {src}")
+            lines.append("            self.ser_assign <<= std.to_bits(va)")
+            procs.append("\n".join(lines))
     nl = "\n"
     return (type_module_source(inner) + "\n\nclass C17Wrap(cohdl.Entity):\n" + nl.join(ports) +
-            "\n\n    def architecture(self):\n        @std.concurrent\n        def logic():\n" + nl.join(body) + "\n")
+            "\n\n    def architecture(self):\n        @std.concurrent\n        def logic():\n" + nl.join(body) + "\n" +
+            "".join("\n" + p + "\n" for p in procs))
 
 
 def leaf_value(leaf, vs):
@@ -565,7 +680,8 @@ def sim_task(item):
         W = len(b)
         fmt = lambda x: "-" if x is None else format(x, f"0{W}b")
         ls = ["-" if (x := d.get(f"l{n}")) is None else str(int(x)) for n in range(len(lv))]
-        out.append(f"{fmt(d.get('rt'))} {fmt(d.get('ser'))} " + " ".join(ls))
+        ms = [f"{m}={fmt(d.get('ser_' + m))}" for m in sim_modes(ty)]
+        out.append(f"{fmt(d.get('rt'))} {fmt(d.get('ser'))} " + " ".join(ls + ms))
     return out
 
 
@@ -744,7 +860,37 @@ def py_task(item):
         except BaseException as e:  # noqa
             out["built"].append("!" + classify(e))
             out["wbuilt"].append("!" + classify(e))
+    # the same values through every other construction path of records (positional, shuffled keywords, mixed, copy):
+    # to_bits must not depend on how the value was built
+    out["modes"] = {}
+    if has_rec(inner):
+        sel = mode_subset(patterns)
+        for m in EXTRA_MODES:
+            row = []
+            for i in sel:
+                try:
+                    x = build(inner, parse_sexp(values[i]), mod, m)
+                    if ty[0] == "ser":
+                        row.append(bits_str(std.Serialized[T](x).bits()))
+                    else:
+                        tb = std.to_bits(x)
+                        row.append(bits_str(tb) + " " + walk(ty, std.from_bits[T](tb), mod))
+                except BaseException as e:  # noqa
+                    row.append("!" + classify(e))
+            out["modes"][m] = row
     return out
+
+
+def mode_subset(patterns):
+    """indices of the patterns used for the extra construction paths: all when few, else every pattern with at most one
+    set / cleared bit (what a field permutation moves) plus a stride sample"""
+    n = len(patterns)
+    if n <= 64:
+        return list(range(n))
+    W = len(patterns[0])
+    keep = {i for i, p in enumerate(patterns) if p.count("1") <= 1 or p.count("0") <= 1}
+    keep |= set(range(0, n, max(1, n // 40)))
+    return sorted(keep)
 
 
 # ---------------------------------------------------------------------------------------------------
@@ -848,6 +994,13 @@ def eval_py(types, pats, model):
                 mm.append(("to_bits(constructed value)", cv[i], p, r["built"][i]))
             if r["wbuilt"][i] != cv[i]:
                 mm.append(("from_bits(to_bits(x))", cv[i], cv[i], r["wbuilt"][i]))
+        if r.get("modes"):
+            sel = mode_subset(ps)
+            for m, row in r["modes"].items():
+                for i, got in zip(sel, row):
+                    exp = ps[i] if t[0] == "ser" else ps[i] + " " + cv[i]
+                    if got != exp:
+                        mm.append((f"to_bits(value constructed [{m}])", cv[i], exp, got))
         out.append(mm)
     return out
 
@@ -855,7 +1008,9 @@ def eval_py(types, pats, model):
 def expected_sim_line(t, p, v):
     inner = t[1] if t[0] == "ser" else t
     vals = flat_leaves(inner, parse_sexp(v))
-    return f"{p} {p} " + " ".join(str(leaf_value(l, x)) for (pa, l), x in zip(leaves(inner), vals))
+    W = len(p)
+    ms = [f"{m}=" + ("0" * W if m == "null" else "1" * W if m == "full" else p) for m in sim_modes(t)]
+    return f"{p} {p} " + " ".join([str(leaf_value(l, x)) for (pa, l), x in zip(leaves(inner), vals)] + ms)
 
 
 def eval_sim(types, pats, model):
@@ -879,8 +1034,9 @@ def eval_sim(types, pats, model):
             exp = expected_sim_line(t, p, v)
             if exp != line:
                 e, o = exp.split(" "), line.split(" ")
-                what = "emitted to_bits(from_bits(inp))" if e[0] != o[0] else ("emitted to_bits(constructed)" if e[1] != o[1] else
-                                                                                 f"emitted from_bits leaf {[a == b for a, b in zip(e, o)].index(False) - 2}")
+                k = [a == b for a, b in zip(e, o)].index(False) if len(e) == len(o) else 0
+                what = "emitted to_bits(from_bits(inp))" if k == 0 else ("emitted to_bits(constructed)" if k == 1 else
+                       f"emitted to_bits(constructed [{e[k].split('=')[0]}])" if "=" in e[k] else f"emitted from_bits leaf {k - 2}")
                 out[i].append((what, p, exp, line))
     return out, srcs
 
@@ -1248,7 +1404,13 @@ def run(ctx: Ctx):
                 "width bound (python level 8 quick / 10 thorough, compiled level 6 / 8), above it zeros / ones / walking one / walking zero / random; a case = one "
                 "(type, pattern) at one level (python, compiled); non-trivial = composite type (depth >= 1) and pattern not all-0/all-1; "
                 "distinct = distinct (type shape, pattern, level).  BitFields: fixed + random declarations (nested, overlapping, "
-                "typed views), every leaf read and written for every pattern (width <= bound) with random written values")
+                "typed views), every leaf read and written for every pattern (width <= bound) with random written values.  Every value of a "
+                "type containing a record is built through every construction path (keywords in declaration order, positional, keywords "
+                "reversed / rotated, mixed positional+keyword, copy construction of a shuffled value; in compiled designs also a default-"
+                "constructed Variable with fields assigned one by one in shuffled order, T(Null), T(Full)), at every record node, and "
+                "to_bits of each must equal the same documented layout")
+    global SIM_ALL_MODES
+    SIM_ALL_MODES = not ctx.quick
     bound = ctx.scale(8, 10)
     n_rand = ctx.scale(160, 700)
     maxd = ctx.scale(3, 4)
